@@ -16,6 +16,8 @@ from ..interp import Cat, Hooks, Interp, Intrinsic, Obj, SimRaise
 from ..nf import Rat
 
 BASE_SOLVER = "torchsde/_core/base_solver.py"
+# constructors of a preallocated output buffer (the alternative to collecting a list and stacking it)
+OUTPUT_BUFFER_CTORS = ("torch.empty", "torch.zeros", "torch.empty_like", "torch.zeros_like")
 CARRIED = ("step_size", "prev_t", "curr_t", "prev_y", "curr_y", "curr_extra", "prev_error_ratio")
 
 
@@ -71,13 +73,35 @@ class LoopHooks(Hooks):
         if ctx_text.startswith("torch.no_grad"):
             self.no_grad_depth += 1 if entering else -1
 
+    def tensor_attr(self, interp, recv, name, node, fi):
+        if name in ("dtype", "device", "shape"):
+            return ("attr", name, Rat.lift(recv).key() if isinstance(recv, Rat) else repr(recv))
+        return NotImplemented
+
     def external_call(self, interp, dotted, args, kwargs, node, fi):
+        if dotted in OUTPUT_BUFFER_CTORS:
+            return new_output_buffer(args, kwargs)
         if dotted == "torch.stack":
             dim = args[1] if len(args) > 1 else kwargs.get("dim", Fraction(0))
             return Cat("stack", list(args[0]), dim)
         if dotted == "warnings.warn":
             self.calls["warn"].append(node)
             return None
+        if dotted in ("torch.isclose", "math.isclose") and len(args) >= 2:
+            # exact meaning on concrete times: |a - b| <= atol + rtol * |b| (torch) / max(rel * max(|a|, |b|), abs) (math)
+            def num(x):
+                if isinstance(x, Rat):
+                    x = x.const_value()
+                return nf.frac(x) if x is not None and not isinstance(x, bool) else None
+            a, b = num(args[0]), num(args[1])
+            if a is not None and b is not None:
+                if dotted == "torch.isclose":
+                    rtol = num(kwargs.get("rtol", args[2] if len(args) > 2 else Fraction(1, 10 ** 5)))
+                    atol = num(kwargs.get("atol", args[3] if len(args) > 3 else Fraction(1, 10 ** 8)))
+                    return abs(a - b) <= atol + rtol * abs(b)
+                rel = num(kwargs.get("rel_tol", Fraction(1, 10 ** 9)))
+                ab = num(kwargs.get("abs_tol", Fraction(0)))
+                return abs(a - b) <= max(rel * max(abs(a), abs(b)), ab)
         return NotImplemented
 
     def on_call(self, interp, callee, args, kwargs, node, fi):
@@ -109,6 +133,36 @@ class _NoDecide(Hooks):
         return getattr(self.inner, name)
 
 
+def new_output_buffer(args=(), kwargs=None, head=None):
+    """A preallocated output tensor: writes `buf[k] = v` are logged in order; `dtype` is what it was created with (a
+    write converts to it).  `head` seeds the log with the symbol standing for everything written before the loop head."""
+    kwargs = kwargs or {}
+    buf = Obj("ys-buffer", attrs={"dtype": kwargs.get("dtype"), "sizes": tuple(args)})
+    if head is not None:
+        buf.setitem_log.append(("head", head))
+    return buf
+
+
+def is_output_buffer(x):
+    return isinstance(x, Obj) and x.name == "ys-buffer"
+
+
+def output_writes(ys):
+    """[(index, value)] in write order, for either style of output collection."""
+    if isinstance(ys, list):
+        return list(enumerate(ys))
+    if is_output_buffer(ys):
+        return list(ys.setitem_log)
+    return None
+
+
+def output_style(model):
+    """'list' (append + stack) or 'buffer' (preallocated tensor + indexed writes), read off the prologue's evaluation."""
+    fi, prologue, f, w, tail, epi = loop_structure(model)
+    p, _ = run_body(model, False, prologue, {}, _style="list")
+    return "buffer" if is_output_buffer(p.env.get("ys")) else "list"
+
+
 def _integrate(model):
     fi = model.func(BASE_SOLVER, "BaseSDESolver.integrate")
     if not getattr(fi, "_canonical_locals", False):
@@ -130,11 +184,18 @@ def canonicalise_locals(fi):
     p_self, p_y0, p_ts, p_extra0 = params[0], params[1], params[2], params[3]
     body = [s for s in node.body if not (isinstance(s, ast.Expr) and isinstance(s.value, ast.Constant))]
     fors = [s for s in body if isinstance(s, ast.For)]
-    if len(fors) != 1 or not isinstance(fors[0].target, ast.Name):
+    if len(fors) != 1:
         return
     f = fors[0]
     prologue = body[:body.index(f)]
-    roles = {f.target.id: "out_t"}
+    if isinstance(f.target, ast.Name):
+        roles = {f.target.id: "out_t"}
+    elif isinstance(f.target, ast.Tuple) and len(f.target.elts) == 2 and all(isinstance(e, ast.Name) for e in f.target.elts) \
+            and isinstance(f.iter, ast.Call) and isinstance(f.iter.func, ast.Name) and f.iter.func.id == "enumerate":
+        # `for i, out_t in enumerate(ts[1:], start=1)`: an index into the output buffer travels with the output time
+        roles = {f.target.elts[0].id: "out_index", f.target.elts[1].id: "out_t"}
+    else:
+        return
 
     def init_values():
         out = {}
@@ -165,7 +226,7 @@ def canonicalise_locals(fi):
             by_kind.setdefault("curr_extra", []).append(name)
         elif isinstance(v, ast.Constant) and v.value is None:
             by_kind.setdefault("prev_error_ratio", []).append(name)
-        elif isinstance(v, ast.List):
+        elif isinstance(v, ast.List) or (isinstance(v, ast.Call) and ast.unparse(v.func) in OUTPUT_BUFFER_CTORS):
             by_kind.setdefault("ys", []).append(name)
         elif txt == f"{p_ts}[0]":
             by_kind.setdefault("t", []).append(name)
@@ -178,7 +239,8 @@ def canonicalise_locals(fi):
     w = whiles[0] if len(whiles) == 1 else None
     if w is not None and isinstance(w.test, ast.Compare) and len(w.test.ops) == 1:
         sides = [w.test.left, w.test.comparators[0]]
-        cands = [x.id for x in sides if isinstance(x, ast.Name) and x.id != f.target.id]
+        out_names = {k for k, v in roles.items() if v in ("out_t", "out_index")}
+        cands = [x.id for x in sides if isinstance(x, ast.Name) and x.id not in out_names]
         ts_like = by_kind.get("t", [])
         if len(cands) == 1 and cands[0] in ts_like and len(ts_like) == 2:
             roles[cands[0]] = "curr_t"
@@ -265,24 +327,29 @@ def make_ts():
         if isinstance(idx, slice) and idx.start == 1 and idx.stop is None:
             return [out_t]
         raise AnalysisError(f"unexpected index into ts: {idx!r}", where=astq.loc(fi, node))
-    return Obj("ts", getitem_hook=getitem), out_t
+    return Obj("ts", getitem_hook=getitem, attrs={"__len__": Intrinsic("len", lambda it, a, k, n, f: nf.sym("len(ts)", True))}), out_t
 
 
-def head_env(self_obj, ts_obj, out_t):
+def head_env(self_obj, ts_obj, out_t, style="list"):
     env = {"self": self_obj, "ts": ts_obj, "out_t": out_t, "y0": nf.sym("y0"), "extra0": nf.sym("extra0"),
-           "ys": [nf.sym("ys@head")]}
+           "ys": [nf.sym("ys@head")] if style == "list" else new_output_buffer(head=nf.sym("ys@head")),
+           "out_index": nf.sym("out_index", True)}
     for name in CARRIED:
         scalar = name in ("step_size", "prev_t", "curr_t", "prev_error_ratio")
         env[name] = nf.sym(f"{name}@head", scalar)
     return env
 
 
-def run_body(model, adaptive, stmts, decisions, env_override=None, ordering=None):
+def run_body(model, adaptive, stmts, decisions, env_override=None, ordering=None, _style=None):
     fi = _integrate(model)
     steps = []
     self_obj = make_self(model, adaptive, steps)
     ts_obj, out_t = make_ts()
-    env = head_env(self_obj, ts_obj, out_t)
+    if _style is None:
+        if not hasattr(model, "_output_style"):
+            model._output_style = output_style(model)
+        _style = model._output_style
+    env = head_env(self_obj, ts_obj, out_t, _style)
     # any further local the prologue initialises (a step counter, a flag) is loop state of its own: a fresh symbol at the
     # loop head; the rules then see whether it reaches a step argument (R12.2, R13.5)
     try:
